@@ -521,19 +521,26 @@ func joinSet(v interface{}, operator string) (string, error) {
 func parseOperand(o interface{}, noWrap bool, negation bool) (string, error) {
 	switch operandType := o.(type) {
 	case string:
+		if negation {
+
+			return "!(" + operandType + ")", nil
+		}
 
 		return operandType, nil
 	case float64:
 
 		return fmt.Sprint(operandType), nil
 	case bool:
-
+		text := "false"
 		if operandType {
+			text = "true"
+		}
+		if negation {
 
-			return "true", nil
+			return "!(" + text + ")", nil
 		}
 
-		return "false", nil
+		return text, nil
 	case map[string]interface{}:
 		expr, expNoWrap, err := buildExpressionEx(operandType, 0)
 
@@ -541,13 +548,13 @@ func parseOperand(o interface{}, noWrap bool, negation bool) (string, error) {
 
 			return expr, err
 		}
+		if negation {
+			// the lone operand of "not", whatever its form
+			return "!(" + expr + ")", nil
+		}
 		if expNoWrap || noWrap {
 
 			return expr, nil
-		}
-
-		if negation {
-			return "!(" + expr + ")", nil
 		}
 
 		return "(" + expr + ")", nil
